@@ -5016,7 +5016,9 @@ func updateMeshTopology(tx WriteTxn, idx uint64, node string, svc *structs.NodeS
 			return fmt.Errorf("%q lookup failed: %v", tableMeshTopology, err)
 		}
 		sid := svc.CompoundServiceID()
-		uid := structs.UniqueID(node, sid.String())
+		// The store finds nodes and instances by their lower-cased names: key the reference the
+		// same way, so that an instance written under another spelling keeps ONE reference.
+		uid := strings.ToLower(structs.UniqueID(node, sid.String()))
 
 		var mapping *upstreamDownstream
 		if existing, ok := obj.(*upstreamDownstream); ok {
@@ -5072,7 +5074,9 @@ func cleanupMeshTopology(tx WriteTxn, idx uint64, service *structs.ServiceNode) 
 	sn := structs.NewServiceName(service.ServiceProxy.DestinationServiceName, &service.EnterpriseMeta)
 
 	sid := service.CompoundServiceID()
-	uid := structs.UniqueID(service.Node, sid.String())
+	uid := strings.ToLower(structs.UniqueID(service.Node, sid.String()))
+	// references written before this change are keyed on the name as spelled in the registration
+	legacyUID := structs.UniqueID(service.Node, sid.String())
 
 	iter, err := tx.Get(tableMeshTopology, indexDownstream, sn)
 	if err != nil {
@@ -5089,11 +5093,14 @@ func cleanupMeshTopology(tx WriteTxn, idx uint64, service *structs.ServiceNode) 
 		copy := m.DeepCopy()
 
 		// Bail early if there's no reference to the proxy ID we're deleting
-		if _, ok := copy.Refs[uid]; !ok {
+		_, ok := copy.Refs[uid]
+		_, okLegacy := copy.Refs[legacyUID]
+		if !ok && !okLegacy {
 			continue
 		}
 
 		delete(copy.Refs, uid)
+		delete(copy.Refs, legacyUID)
 		if len(copy.Refs) == 0 {
 			if err := tx.Delete(tableMeshTopology, m); err != nil {
 				return fmt.Errorf("failed to truncate %s table: %v", tableMeshTopology, err)
